@@ -74,7 +74,7 @@ def main():
     ap = argparse.ArgumentParser()
     ap.add_argument('scenario'); ap.add_argument('--steps', type=int, default=60); ap.add_argument('--splits', default='')
     ap.add_argument('--batch', action='store_true'); ap.add_argument('--log-dir', default=''); ap.add_argument('--detail', action='store_true')
-    ap.add_argument('--end-step', type=int, default=0)
+    ap.add_argument('--end-step', type=int, default=0); ap.add_argument('--runner-step', action='store_true'); ap.add_argument('--stateful-gen', action='store_true')
     a = ap.parse_args()
     with contextlib.redirect_stdout(_buf), contextlib.redirect_stderr(_buf):
         cfg = load_config(a.scenario)
@@ -88,13 +88,46 @@ def main():
         if a.end_step:
             from nrel.hive.model.sim_time import SimTime
             cfg = cfg._replace(sim=cfg.sim._replace(end_time=SimTime.build(int(cfg.sim.start_time) + a.end_step * cfg.sim.timestep_duration_seconds)))
-        rp = load_simulation(cfg)
+        gens = None
+        if a.stateful_gen:
+            # a user-supplied instruction generator that carries state from step to step (the documented extension point):
+            # every step it returns an updated copy of itself; what it instructs depends on how many steps it has seen
+            from nrel.hive.dispatcher.instruction_generator.instruction_generator import InstructionGenerator
+            from nrel.hive.dispatcher.instruction_generator.dispatcher import Dispatcher
+            from nrel.hive.dispatcher.instruction_generator.charging_fleet_manager import ChargingFleetManager
+            from nrel.hive.dispatcher.instruction.instructions import IdleInstruction, RepositionInstruction
+            @dataclasses.dataclass(frozen=True)
+            class RoundRobin(InstructionGenerator):
+                count: int = 0
+                def generate_instructions(self, simulation_state, environment):
+                    vids = simulation_state.get_vehicle_ids()
+                    out = ()
+                    if vids and self.count % 2 == 0:
+                        v = simulation_state.vehicles[vids[(self.count // 2) % len(vids)]]
+                        name = type(v.vehicle_state).__name__
+                        if name == 'Idle':
+                            others = [x for x in simulation_state.get_vehicles() if x.position.link_id != v.position.link_id]
+                            if others:
+                                out = (RepositionInstruction(v.id, others[self.count % len(others)].position.link_id),)
+                        elif name == 'Repositioning' and self.count % 3 == 0:
+                            out = (IdleInstruction(v.id),)
+                    return dataclasses.replace(self, count=self.count + 1), out
+            gens = (RoundRobin(), Dispatcher(cfg.dispatcher), ChargingFleetManager(cfg.dispatcher))
+        rp = load_simulation(cfg, gens)
         cap = Capture()
         rp.e.reporter.add_handler(cap)
         if not any(isinstance(h, StatsHandler) for h in rp.e.reporter.handlers):
             rp.e.reporter.add_handler(StatsHandler())
         fps, details = [], []
-        if a.batch:
+        if a.runner_step:
+            done = 0
+            while done < a.steps + 3:
+                nxt = LocalSimulationRunner.step(rp)
+                if nxt is None:
+                    break
+                rp = nxt; done += 1
+                f, d = state_fp(rp.s, a.detail); fps.append([done, f]); details.append(d)
+        elif a.batch:
             rp = LocalSimulationRunner.run(rp)
             f, d = state_fp(rp.s, a.detail); fps.append([len(cap.steps), f]); details.append(d)
         else:
@@ -108,7 +141,15 @@ def main():
         if a.log_dir:
             for h in rp.e.reporter.handlers:
                 h.close(rp)
-    out = {'fp': fps, 'events': cap.steps, 'stats': canon(stats), 'final_time': int(rp.s.sim_time), 'hashseed': os.environ.get('PYTHONHASHSEED')}
+    out = {'fp': fps, 'events': cap.steps, 'stats': canon(stats), 'final_time': int(rp.s.sim_time), 'hashseed': os.environ.get('PYTHONHASHSEED'),
+           'start_time': int(cfg.sim.start_time), 'end_time': int(cfg.sim.end_time), 'delta': int(cfg.sim.timestep_duration_seconds)}
+    out['final'] = {'vehicles': {k: [v.distance_traveled_km, {str(e): x for e, x in v.energy_gained.items()}] for k, v in rp.s.vehicles.items()},
+                    'requests_count': None, 'cancelled_count': None}
+    for h in rp.e.reporter.handlers:
+        if isinstance(h, StatsHandler):
+            out['final']['requests_count'] = h.stats.requests
+            out['final']['cancelled_count'] = h.stats.cancelled_requests
+    out['timeout'] = int(cfg.sim.request_cancel_time_seconds)
     if a.detail:
         out['detail'] = details
     print(json.dumps(out, default=str))
